@@ -3,10 +3,10 @@
 //@ kind W
 //@ def quick NV=6 NOUT=44 VERIF_ALLOC_MAX=20
 //@ def thorough NV=7 NOUT=44 VERIF_ALLOC_MAX=22
-//@ cbmc all --unwind 46 --unwinding-assertions
+//@ cbmc all --unwind 12 --unwindset XMLString_patternMatch.0:32,spec_read_output.1:46 --unwinding-assertions
 //@ entry h_cdata_split
 //@ note W: complete for every CDATA node value of length <= NV over the alphabet { ']', '>', 'a', '<' } (split-cdata-sections = true); all loops (stringLen, copyString, catString, patternMatch, the split loop) are the real text, fully unwound, unwinding assertions on
-//@ note stubs (contracts/domser_stubs.inc): the XMLFormatter sink appends to OUT[] and remembers the escape mode; reportError records (severity, code, node); fMemoryManager->allocate is verif_alloc = a fresh object of exactly the requested number of bytes (so that one element past `len + 3 + 1` is an out-of-bounds dereference); the ArrayJanitor (release at scope exit) is dropped; procUnrepCharInCdataSection is a stub that forwards a non-empty argument to the sink as one CDATA section (what the real one does when every character is representable: unit domser_unrep_cdata)
+//@ note stubs (contracts/domser_stubs.inc): the XMLFormatter sink appends to OUT[] and remembers the escape mode; reportError records (severity, code, node); fMemoryManager->allocate is verif_alloc = exactly the requested number of bytes at the END of a pool object (so that one element past `len + 3 + 1` is an out-of-bounds dereference); the ArrayJanitor (release at scope exit) is dropped; procUnrepCharInCdataSection is a stub that forwards a non-empty argument to the sink as one CDATA section (what the real one does when every character is representable: unit domser_unrep_cdata)
 //@ note spec = a reader of the output (XML 1.0 productions [18]-[21]: CDSect ::= '<![CDATA[' CData ']]>' where CData contains no ']]>'): the output must be a sequence of complete CDATA sections whose contents, concatenated, are the node value (C12: "equal up to the division of character data between adjacent CDATA nodes where a section had to be split")
 #define VERIF_DEFINE_GHOSTS
 #include "verif_prelude.h"
@@ -54,6 +54,26 @@ static const XMLCh SPEC_CDSTART[9] = { '<', '!', '[', 'C', 'D', 'A', 'T', 'A', '
 struct { XMLCh a[NV + 1]; } VAL;
 DOMNode NODE_TAG;
 
+/* reference reader of the output: top level accepts only CDStart; inside a section everything up to the FIRST ']]>' is content */
+struct { XMLCh a[NOUT]; } RECON; XMLSize_t RL, SECTIONS; int WF;
+static void spec_read_output(void)
+{
+  int inside = 0; XMLSize_t skip = 0; RL = 0; SECTIONS = 0; WF = 1;
+  for (XMLSize_t i = 0; i < NOUT; i++) {
+    if (i >= OUTLEN) break;
+    if (skip > 0) { skip--; continue; }
+    if (!inside) {
+      int m = (i + 9 <= OUTLEN);
+      for (XMLSize_t k = 0; k < 9; k++) if (m && OUT.a[i + k] != SPEC_CDSTART[k]) m = 0;
+      if (m) { inside = 1; skip = 8; SECTIONS++; } else WF = 0;
+    } else {
+      if (i + 3 <= OUTLEN && OUT.a[i] == ']' && OUT.a[i + 1] == ']' && OUT.a[i + 2] == '>') { inside = 0; skip = 2; }
+      else RECON.a[RL++] = OUT.a[i];
+    }
+  }
+  if (inside || skip) WF = 0;
+}
+
 void h_cdata_split(void)
 {
   XMLSize_t n;
@@ -73,21 +93,8 @@ void h_cdata_split(void)
   for (XMLSize_t k = 0; k + 3 <= NV; k++) if (k + 3 <= n && s[k] == ']' && s[k + 1] == ']' && s[k + 2] == '>') nested = 1;
   if (nested) VERIF_CANARY("a value containing the CDATA end marker is reachable");
 
-  /* reference reader of the output: top level accepts only CDStart; inside a section everything up to the FIRST ']]>' is content */
-  XMLCh recon[NOUT]; XMLSize_t rl = 0; int wf = 1, inside = 0; XMLSize_t skip = 0, sections = 0;
-  for (XMLSize_t i = 0; i < NOUT; i++) {
-    if (i >= OUTLEN) break;
-    if (skip > 0) { skip--; continue; }
-    if (!inside) {
-      int m = (i + 9 <= OUTLEN);
-      for (XMLSize_t k = 0; k < 9; k++) if (m && OUT.a[i + k] != SPEC_CDSTART[k]) m = 0;
-      if (m) { inside = 1; skip = 8; sections++; } else wf = 0;
-    } else {
-      if (i + 3 <= OUTLEN && OUT.a[i] == ']' && OUT.a[i + 1] == ']' && OUT.a[i + 2] == '>') { inside = 0; skip = 2; }
-      else recon[rl++] = OUT.a[i];
-    }
-  }
-  if (inside || skip) wf = 0;
+  spec_read_output();
+  int wf = WF; XMLSize_t rl = RL, sections = SECTIONS;
 
   __CPROVER_assert(!OUT_OVERFLOW, "C01: harness output array large enough (no write dropped)");
   __CPROVER_assert(ALLOC_COUNT == 1, "C01: exactly one temporary buffer is requested");
@@ -95,7 +102,7 @@ void h_cdata_split(void)
   __CPROVER_assert(!SINK_ESCAPED, "C12: CDATA markup and content are written with NoEscapes");
   __CPROVER_assert(wf, "C12: the output is a sequence of complete CDATA sections (no section content contains ']]>', nothing outside a section)");
   __CPROVER_assert(!wf || rl == n, "C12: the contents of the emitted CDATA sections, concatenated, have the length of the node value (nothing lost, nothing added)");
-  if (wf && rl == n) for (XMLSize_t k = 0; k < NV; k++) if (k < n) __CPROVER_assert(recon[k] == s[k], "C12: the contents of the emitted CDATA sections, concatenated, are the node value");
+  if (wf && rl == n) for (XMLSize_t k = 0; k < NV; k++) if (k < n) __CPROVER_assert(RECON.a[k] == s[k], "C12: the contents of the emitted CDATA sections, concatenated, are the node value");
   __CPROVER_assert(n == 0 || sections >= 1, "C12: a non-empty value produces at least one section");
   __CPROVER_assert((ERR_WARNINGS >= 1) == (nested != 0), "C12: a warning is reported iff the value contains ']]>' (a section had to be split)");
   __CPROVER_assert(ERR_FATALS == 0 && ERR_COUNT == ERR_WARNINGS && !verif_thrown, "C12: splitting reports warnings only");
